@@ -105,7 +105,25 @@ def gen_circuit(cirq, rng, clifford=False, qudits=False, deep=False):
             target = rng.randrange(1 << width)
             cond = cirq.BitMaskKeyCondition(key, index=rng.choice([-1, 0]), target_value=target if mask is None else target & mask,
                                             equal_target=rng.random() < 0.5, bitmask=mask)
-        return base.with_classical_controls(cond)
+        r2 = rng.random()
+        if r2 < 0.55 or not hasattr(cirq, 'If'):
+            return base.with_classical_controls(cond)
+        # a second condition (possibly on another key / another record of the same key) and the `If` spellings of the same control
+        key2 = rng.choice(keys_seen)
+        count2 = len([o for o in ops if cirq.is_measurement(o) and key2 in cirq.measurement_key_names(o)])
+        cond2 = cirq.KeyCondition(cirq.MeasurementKey(key2), rng.choice([-1, 0, count2 - 1]))
+        v = rng.randrange(6)
+        if v == 0:
+            return base.with_classical_controls(cond, cond2)
+        if v == 1:
+            return cirq.If(cond, base)
+        if v == 2:
+            return cirq.If([cond, cond2], base)
+        if v == 3:
+            return cirq.If(cond2, cirq.If(cond, base))
+        if v == 4:
+            return cirq.If(cond, base.with_classical_controls(cond2))
+        return cirq.If([cond2, cond], base).with_tags('t')
 
     for _ in range(rng.randint(6, 11) if deep else rng.randint(1, 7)):
         r = rng.random()
@@ -120,7 +138,7 @@ def gen_circuit(cirq, rng, clifford=False, qudits=False, deep=False):
     style = rng.random()
     if style < 0.4:
         # force the measurements to be terminal: move them to the end (legal only without feed-forward)
-        if not any(isinstance(o, cirq.ClassicallyControlledOperation) for o in ops):
+        if not any(cirq.control_keys(o) for o in ops):
             ms = [o for o in ops if cirq.is_measurement(o)]
             used = set()
             term = []
@@ -146,7 +164,7 @@ def lean_ops(cirq, circuit, order):
     out = []
 
     def conv(op):
-        if isinstance(op, cirq.ClassicallyControlledOperation):
+        if isinstance(op, cirq.ClassicallyControlledOperation) or (hasattr(cirq, 'If') and isinstance(op, cirq.If)):
             conds = []
             for c in op.classical_controls:
                 if isinstance(c, cirq.KeyCondition):
@@ -309,7 +327,7 @@ def run(ctx: common.Run):
                     {'lines': [{'circuit': repr(circuit)}], 'impl_out': [sorted((repr(k), round(v, 9)) for k, v in got.items())],
                      'spec_out': [sorted((repr(k), round(v, 9)) for k, v in want.items())], 'theorem_or_correspondence': 'Spec.Circuit.run (runDist)'})
         # sampling never changes the state
-        if not any(isinstance(o, cirq.ClassicallyControlledOperation) for o in plain.all_operations()):
+        if not any(cirq.control_keys(o) for o in plain.all_operations()):
             pre = cirq.Circuit(o for o in plain.all_operations() if not cirq.is_measurement(o))
             step = None
             for step in cirq.Simulator(seed=1, dtype=np.complex128).simulate_moment_steps(pre, qubit_order=qs):
